@@ -10,7 +10,8 @@ def dump(conn):
         idx = []
         for r in conn.execute('PRAGMA index_list("%s")' % name.replace('"', '""')).fetchall():
             xi = conn.execute('PRAGMA index_xinfo("%s")' % r[1].replace('"', '""')).fetchall()
-            idx.append({"name": r[1], "unique": r[2], "origin": r[3], "partial": r[4],
+            isql = conn.execute("SELECT sql FROM sqlite_master WHERE type='index' AND name=?", (r[1],)).fetchone()
+            idx.append({"name": r[1], "unique": r[2], "origin": r[3], "partial": r[4], "sql": (isql[0] if isql and isql[0] else ""),
                         "cols": [{"n": x[2] if x[2] is not None else "", "desc": x[3]} for x in xi if x[5] == 1]})
         fks = {}
         for r in conn.execute('PRAGMA foreign_key_list("%s")' % name.replace('"', '""')).fetchall():
